@@ -142,18 +142,23 @@ structure PassSt where
   wantMnt : List Nat
   wantDev : List Dev
   protMnt : List Nat
+  protDev : List Dev     -- devices whose replication is already counted in replProt
   replWant : Nat
   replProt : Nat
-  utd : List Int      -- unsafeToDelete (shared by all iterations)
+  utd : List Int         -- unsafeToDelete (shared by all iterations)
   done : Bool
   deriving DecidableEq, Repr
 
-def protectStep (d : Nat) (s : Slot) (st : PassSt) : PassSt :=
+/-- the protection part of trySlot: the replica becomes unsafe to delete; it counts toward
+`replProt` only if its mount is in class `c` and its device has not been counted yet -/
+def protectStep (c : Class) (d : Nat) (s : Slot) (st : PassSt) : PassSt :=
   match s.repl with
   | some t =>
     if st.replProt < d && !st.protMnt.contains s.mnt.id then
       { st with utd := t :: st.utd, protMnt := s.mnt.id :: st.protMnt,
-                replProt := st.replProt + s.mnt.repl }
+                replProt := if inClass c s.mnt && !st.protDev.contains s.mnt.dev
+                            then st.replProt + s.mnt.repl else st.replProt,
+                protDev := if s.mnt.dev != 0 then s.mnt.dev :: st.protDev else st.protDev }
     else st
   | none => st
 
@@ -165,30 +170,30 @@ def wantStep (d : Nat) (s : Slot) (st : PassSt) : PassSt :=
   else st
 
 /-- `trySlot(i)`; `done` holds its return value -/
-def trySlot (d : Nat) (s : Slot) (st : PassSt) : PassSt :=
+def trySlot (c : Class) (d : Nat) (s : Slot) (st : PassSt) : PassSt :=
   if st.wantMnt.contains s.mnt.id || st.wantDev.contains s.mnt.dev then { st with done := false }
   else
-    let st2 := wantStep d s (protectStep d s st)
+    let st2 := wantStep d s (protectStep c d s st)
     { st2 with done := decide (d ≤ st2.replProt) && decide (d ≤ st2.replWant) }
 
-def pass1Step (d : Nat) (st : PassSt) (s : Slot) : PassSt :=
-  if st.done then st else if st.wantSrv.contains s.mnt.srv then st else trySlot d s st
+def pass1Step (c : Class) (d : Nat) (st : PassSt) (s : Slot) : PassSt :=
+  if st.done then st else if st.wantSrv.contains s.mnt.srv then st else trySlot c d s st
 
-def pass2Step (d : Nat) (st : PassSt) (s : Slot) : PassSt :=
-  if st.done then st else trySlot d s st
+def pass2Step (c : Class) (d : Nat) (st : PassSt) (s : Slot) : PassSt :=
+  if st.done then st else trySlot c d s st
 
 /-- first pass: distinct servers only -/
-def pass1 (d : Nat) (slots : List Slot) (st : PassSt) : PassSt := slots.foldl (pass1Step d) st
+def pass1 (c : Class) (d : Nat) (slots : List Slot) (st : PassSt) : PassSt := slots.foldl (pass1Step c d) st
 /-- second pass: no restriction -/
-def pass2 (d : Nat) (slots : List Slot) (st : PassSt) : PassSt := slots.foldl (pass2Step d) st
+def pass2 (c : Class) (d : Nat) (slots : List Slot) (st : PassSt) : PassSt := slots.foldl (pass2Step c d) st
 
-/-- the `safe` loop, with its `break` -/
-def safeCount (c : Class) (d : Nat) : List Slot → Nat → Nat
-  | [], safe => safe
-  | s :: rest, safe =>
-    if s.repl.isNone || !inClass c s.mnt then safeCount c d rest safe
+/-- the `safe` loop, with its `break`; `seen` is `safeDev` (a device counts once) -/
+def safeCount (c : Class) (d : Nat) : List Slot → List Dev → Nat → Nat
+  | [], _, safe => safe
+  | s :: rest, seen, safe =>
+    if s.repl.isNone || !inClass c s.mnt || seen.contains s.mnt.dev then safeCount c d rest seen safe
     else if d ≤ safe + s.mnt.repl then safe + s.mnt.repl
-    else safeCount c d rest (safe + s.mnt.repl)
+    else safeCount c d rest (if s.mnt.dev != 0 then s.mnt.dev :: seen else seen) (safe + s.mnt.repl)
 
 /-- state carried from one class iteration to the next -/
 structure BState where
@@ -198,12 +203,13 @@ structure BState where
   deriving DecidableEq, Repr
 
 def passInit (utd : List Int) : PassSt :=
-  { wantSrv := [], wantMnt := [], wantDev := [], protMnt := [], replWant := 0, replProt := 0,
+  { wantSrv := [], wantMnt := [], wantDev := [], protMnt := [], protDev := [], replWant := 0, replProt := 0,
     utd := utd, done := false }
 
-/-- the mtimes added by the "devices mounted on multiple servers" loop -/
-def wantDevMtimes (wantDev : List Dev) (slots : List Slot) : List Int :=
-  slots.filterMap fun s => if wantDev.contains s.mnt.dev then s.repl else none
+/-- the mtimes added by the "devices mounted on multiple servers" loop; `devs` is
+`wantDev` ∪ `protDev` -/
+def wantDevMtimes (devs : List Dev) (slots : List Slot) : List Int :=
+  slots.filterMap fun s => if devs.contains s.mnt.dev then s.repl else none
 
 def markWant (wantMnt : List Nat) (s : Slot) : Slot :=
   if wantMnt.contains s.mnt.id then { s with want := true } else s
@@ -213,10 +219,10 @@ def markWant (wantMnt : List Nat) (s : Slot) : Slot :=
 during the iteration). -/
 def classIter (env : Env) (c : Class) (sorted : List Slot) (b : BState) : BState :=
   let d := env.desired c
-  let st := pass2 d sorted (pass1 d sorted (passInit b.utd))
+  let st := pass2 c d sorted (pass1 c d sorted (passInit b.utd))
   { slots := sorted.map (markWant st.wantMnt),
-    utd := wantDevMtimes st.wantDev sorted ++ st.utd,
-    underrep := if b.underrep then true else decide (safeCount c d sorted 0 < d) }
+    utd := wantDevMtimes (st.wantDev ++ st.protDev) sorted ++ st.utd,
+    underrep := if b.underrep then true else decide (safeCount c d sorted [] 0 < d) }
 
 /-- the loop over `bal.classes`; `sorter c l` is what `sort.Slice` made of `l` for class `c` -/
 def runClasses (env : Env) (sorter : Class → List Slot → List Slot) : List Class → BState → BState
@@ -268,15 +274,20 @@ def change (env : Env) (reps : List Replica) (s : Slot) : Change :=
 structure Result where
   changes : List (Slot × Change)
   final : BState
+  lost : Bool
   deriving Repr
 
-def Result.lost (r : Result) : Bool := r.changes.any (fun p => p.2 == .lost)
+/-- `lost`: set by the switch for a wanted empty slot of a block without replicas, and after the
+loop for any block without replicas that some class of the loop wants -/
+def lostFlag (env : Env) (classes : List Class) (reps : List Replica) (changes : List (Slot × Change)) : Bool :=
+  changes.any (fun p => p.2 == .lost) || (reps.isEmpty && classes.any (fun c => env.desired c != 0))
 
 /-- `balanceBlock` on the mounts of the (cleaned-up) layout -/
 def balanceBlock (env : Env) (classes : List Class) (sorter : Class → List Slot → List Slot)
     (mounts : List Mount) (reps : List Replica) : Result :=
   let b := runClasses env sorter classes { slots := initSlots mounts reps, utd := [], underrep := false }
-  { changes := (finalWant b).map (fun s => (s, change env reps s)), final := b }
+  let changes := (finalWant b).map (fun s => (s, change env reps s))
+  { changes := changes, final := b, lost := lostFlag env classes reps changes }
 
 def BalanceOK (env : Env) (classes : List Class) (sorter : Class → List Slot → List Slot)
     (mounts : List Mount) (reps : List Replica) : Prop :=
@@ -356,9 +367,11 @@ def Result.trashes (r : Result) : List (Slot × Int) :=
 
 /-! ## physical-device semantics (the specification side of the safety clause) -/
 
-/-- two mounts are views of one physical device: same non-blank DeviceID, or the same mount -/
-def sameDevice (a b : Mount) : Bool :=
-  if a.dev = 0 then a.id == b.id else a.dev == b.dev
+/-- the physical device behind a mount: its non-blank DeviceID, or the mount itself -/
+def devKey (m : Mount) : Nat × Nat := if m.dev = 0 then (0, m.id) else (1, m.dev)
+
+/-- two mounts are views of one physical device -/
+def sameDevice (a b : Mount) : Bool := devKey a == devKey b
 
 /-- one representative mount per physical device -/
 def distinctDevices : List Mount → List Mount
